@@ -1410,6 +1410,17 @@ func (x *Exec) builtinModel(fr *Frame, st *State, fn *ssa.Function, name string,
 		"(time.Time).Sub", "(time.Duration).String":
 		model()
 		st.events = append(st.events, name)
+		if name == "time.After" || name == "time.NewTimer" {
+			// ghost record of the armed duration (when the property's spec declares the ghosts)
+			if _, ok := x.ghostDecl["timerNs"]; ok {
+				if d, isT := args[0].(*Term); isT && d.sort == BV(64) {
+					st.ghost["timerNs"] = d
+					if cnt, ok2 := st.ghost["timers"].(*Term); ok2 {
+						st.ghost["timers"] = tb.BVBin("bvadd", cnt, tb.BVi(64, 1))
+					}
+				}
+			}
+		}
 		k(st, x.havocResult(st, fn.Signature.Results(), fn.Name()))
 		return true
 	case "(*bytes.Buffer).Write":
